@@ -259,7 +259,23 @@ Definition prop_cli_with (hok : bytes -> bytes -> option bool) (hdrdec : bytes -
       match cid_parse key with
       | None => VT "ok"%string
       | Some kp =>
-        if is_identity kp then
+        (* the guards of the partial get-block theorems, on the index the model opens for this file *)
+        let f0 := vB (nth 0 (vL (vnth 2 input)) (VB [])) in
+        let present := match first_with_mh key (a_blocks a0) with Some _ => true | None => false end in
+        let guard :=
+          match new_reader hdrdec f0 with
+          | Ok r =>
+            match open_readonly_index hdrdec r f0 with
+            | Ok i =>
+              let cands := idx_getall i (c_mhcode kp) (c_digest kp) in
+              candidates_sound (a_hb a0) (a_blocks a0) cands &&
+              (negb present || existsb (cand_matches (a_hb a0) (a_blocks a0) key) cands)
+            | Err _ => false
+            end
+          | Err _ => false
+          end in
+        if negb guard then fail2 "get-block-guard-false" "getblock"
+        else if is_identity kp then
           if ok && bytes_eqb data (c_digest kp) then VT "ok"%string else fail2 "get-block" "getblock-identity"
         else match first_with_mh key (a_blocks a0) with
              | Some b => if ok && bytes_eqb data (snd b) then VT "ok"%string else fail2 "get-block" "getblock-present"
